@@ -1,7 +1,7 @@
 (* C10 - corruption of protected data is detected; intact data always verifies. *)
 From Coq Require Import NArith List Bool Arith.
 Import ListNotations.
-From WR Require Import Lib.Bits Gen.Consts Mpq.Crypt Mpq.Archive Mpq.Integrity Proofs.Integrity_proofs.
+From WR Require Import Lib.Bits Gen.Consts Mpq.Crypt Mpq.Archive Mpq.Integrity Proofs.Integrity_proofs Proofs.Crc_proofs.
 Open Scope N_scope.
 
 Theorem C10_adler32_single_byte :
@@ -86,3 +86,14 @@ Theorem C10_verified_signatures_agree :
     rsa_pub (rev sig) = rsa_pub (rev sig').
 Proof. exact verified_signatures_agree. Qed.
 Print Assumptions C10_verified_signatures_agree.
+
+(* CRC-32 (attributes file): every single-byte alteration changes the checksum, at every position, for every length *)
+Theorem C10_crc32_single_byte : forall (l1 l2 : list N) (x y : N),
+    wf_bytes l1 -> wf_bytes l2 -> x < 256 -> y < 256 -> x <> y -> crc32 (l1 ++ x :: l2) <> crc32 (l1 ++ y :: l2).
+Proof. exact crc32_single_byte. Qed.
+Print Assumptions C10_crc32_single_byte.
+
+Theorem C10_crc32_detects_alteration : forall (bs : list N) (off : nat) (v : N),
+    (off < length bs)%nat -> wf_bytes bs -> v < 256 -> nth off bs 0 <> v -> crc32 (alter bs off v) <> crc32 bs.
+Proof. exact crc32_detects_alteration. Qed.
+Print Assumptions C10_crc32_detects_alteration.
